@@ -276,6 +276,7 @@ impl<const K: usize> AffTree<K> {
                 let mut created_children = 0;
                 let mut skipped_children = 0;
                 let mut label_created = None;
+                let n_children = lhs.tree.num_children(parent0_idx);
 
                 for edg in lhs.tree.children(parent0_idx) {
                     let child0_idx = edg.target_idx;
@@ -299,8 +300,12 @@ impl<const K: usize> AffTree<K> {
                         .add_child_node(parent1_idx, label, AffContent::new(child1_aff))
                         .unwrap();
 
-                    // Test feasibility of newly created edge, remove if infeasible
-                    if C::explore(rhs, parent1_idx, child1_idx) {
+                    // Test feasibility of newly created edge, remove if infeasible.
+                    // The last remaining branch is always kept: a decision without branches
+                    // would be mistaken for a terminal.
+                    let last_branch =
+                        created_children == 0 && skipped_children + 1 == n_children;
+                    if last_branch || C::explore(rhs, parent1_idx, child1_idx) {
                         stack.push((child0_idx, child1_idx));
                         created_children += 1;
                         n_nodes += 1;
